@@ -22,7 +22,7 @@ RULE = ("Random interleavings (5-80 operations) of quotes and discontinuations o
         "contains a discontinuation followed by a quote for the same contract, or a chain-addressed quote after a roll.")
 ASSUMPTIONS = ["a quote is 'accepted' iff its book is alive; rejected quotes must not be appended to the history"]
 REQUIRED = ["C14:price", "C14:alive", "C14:history", "C14:sides", "C14:chain-key-is-lead", "C14:string-key-same-book", "C14:vectors"]
-REQUIRED_CATS = ["chain-from-unsorted-list", "quote:one-side-only", "query:sparse", "query:all-keys-every-op", "op:disc", "op:chainq", "op:strq", "quote-after-death", "chain-after-roll"]
+REQUIRED_CATS = ["quote-type:int", "quote-type:npint", "quote-type:f32", "chain-from-unsorted-list", "quote:one-side-only", "query:sparse", "query:all-keys-every-op", "op:disc", "op:chainq", "op:strq", "quote-after-death", "chain-after-roll"]
 TECHNIQUE = "runtime monitoring: executable reference model (dict of books) compared after every operation of generated histories"
 LEVEL_TEXT = ("Exploration: history + executable model. Every generated quote/discontinuation history is replayed against a small "
               "deterministic model and every observable of every book is compared after each operation.")
@@ -62,6 +62,10 @@ def case(ctx, i, tier):
 
     n_ops = rng.randint(5, 80)
     full = rng.random() < 0.5
+    # quotes typed as Python ints / numpy ints / numpy float32 (the package's own examples quote in ints): prices
+    # are whatever number type the feed delivers
+    qtype = rng.choice(["float", "float", "float", "int", "npint", "f32"])
+    ctx.cat("quote-type:" + qtype)
     ctx.cat("query:all-keys-every-op" if full else "query:sparse")
     for step in range(n_ops):
         t += timedelta(days=rng.choice([0, 0, 1, 3, 20]), seconds=rng.choice([0, 1, 3600]))
@@ -75,8 +79,17 @@ def case(ctx, i, tier):
         sym = rng.choice(list(objs))
         b = rng.choice([rng.uniform(1, 100), rng.uniform(1, 100), NAN])
         a = b + rng.choice([0, 0.5]) if b == b else rng.choice([NAN, rng.uniform(1, 100)])
+        if qtype in ("int", "npint"):
+            b = rng.randint(1, 100)
+            a = b + rng.choice([0, 1, 3, 4])
+            if qtype == "npint":
+                b, a = np.int64(b), np.int64(a)
+        elif qtype == "f32" and b == b and a == a:
+            b, a = np.float32(b), np.float32(a)
+            if a < b:
+                a = b
         via = rng.random() < 0.5
-        if op != "disc" and rng.random() < 0.25:
+        if qtype == "float" and op != "disc" and rng.random() < 0.25:
             # only one side changes: the other repeats EXACTLY the book's current value
             tgt0 = lead.symbol if op == "chainq" else sym
             cur = model.get(tgt0)
@@ -150,11 +163,25 @@ def case(ctx, i, tier):
         second = [c for c in ch.contracts if c.last_trading_date > t][1]
         ctx.check("C14:chain-key-is-lead", ex[ch1] is ex[second], second=second.symbol, now=t, offset=1)
         keys = [o for _, o in subset] or list(objs.values())[:1]
-        signs = np.array([rng.choice([-1.0, 1.0]) for _ in keys])
+        if rng.random() < 0.3:
+            # only books that have been quoted (with integer quotes the arrays then hold no NaN)
+            quoted = [k for k in keys if m(k.symbol)["bid"] == m(k.symbol)["bid"] and m(k.symbol)["ask"] == m(k.symbol)["ask"]]
+            keys = quoted or keys
+        signs = np.array([rng.choice([-1.0, 1.0, 0.0]) for _ in keys])
+        if rng.random() < 0.3:
+            signs = signs.astype(int)
+
+        def midm(k):
+            return (m(k.symbol)["ask"] + m(k.symbol)["bid"]) / 2
+
         okv = all(same(x, m(k.symbol)["bid"]) for x, k in zip(ex.bid_prices(keys), keys)) and \
             all(same(x, m(k.symbol)["ask"]) for x, k in zip(ex.ask_prices(keys), keys)) and \
-            all(same(x, m(k.symbol)["ask"] if s > 0 else m(k.symbol)["bid"]) for x, k, s in zip(ex.acq_prices(keys, signs), keys, signs)) and \
-            all(same(x, m(k.symbol)["bid"] if s > 0 else m(k.symbol)["ask"]) for x, k, s in zip(ex.liq_prices(keys, signs), keys, signs))
-        ctx.check("C14:vectors", okv, step=step)
+            all(same(x, midm(k)) for x, k in zip(ex.mid_prices(keys), keys)) and \
+            all(same(x, m(k.symbol)["ask"] if s > 0 else m(k.symbol)["bid"] if s < 0 else midm(k))
+                for x, k, s in zip(ex.acq_prices(keys, signs), keys, signs)) and \
+            all(same(x, m(k.symbol)["bid"] if s > 0 else m(k.symbol)["ask"] if s < 0 else midm(k))
+                for x, k, s in zip(ex.liq_prices(keys, signs), keys, signs))
+        ctx.check("C14:vectors", okv, step=step, signs=[float(x) for x in signs], quote_type=qtype,
+                  got=[float(x) for x in ex.acq_prices(keys, signs)])
     ctx.nontrivial = dead_then_quote or chain_after_roll
     ctx.sample = {"chain": fcls.__name__, "ops": ops[:40], "n_ops": len(ops)}
